@@ -44,7 +44,7 @@ Mk(x, t, i, j) ==
     [] x = "X0" -> Op("X", "", 0)
     [] x = "X3" -> Op("X", "", 3)
     [] OTHER -> Op(x, "", 0)
-Conc(t, q, base) == [i \in DOMAIN q |-> Mk(q[i], t, i, base + (IF q[i] = "J" THEN Rank(q, i) ELSE Rank(q, i)))]
+Conc(t, q, base) == [i \in DOMAIN q |-> Mk(q[i], t, i, base + Rank(q, i))]
 
 M1(ns) == { q \in KindSeqs(MainAlpha, MaxMain) : WF(q) /\ Cnt(q, Spawns) = ns }
 C1(ns) == { q \in KindSeqs(ChildAlpha, MaxChild) : WF(q) /\ Cnt(q, Spawns) = ns }
@@ -78,4 +78,6 @@ SpawnSite(s, j) == CHOOSE ti \in (DOMAIN s) \X (1..(MaxMain + MaxChild)) :
                       /\ s[ti[1]][ti[2]].k \in Spawns /\ s[ti[1]][ti[2]].n = j
 ParOf(s) == [j \in DOMAIN s |-> IF j = 1 THEN 0 ELSE SpawnSite(s, j)[1]]
 KindOf(s) == [j \in DOMAIN s |-> IF j = 1 THEN "main" ELSE s[SpawnSite(s, j)[1]][SpawnSite(s, j)[2]].k]
+LeaderOf(s) == LET P == ParOf(s) K == KindOf(s) IN
+  [j \in DOMAIN s |-> IF K[j] # "C" THEN j ELSE IF K[P[j]] # "C" THEN P[j] ELSE P[P[j]]]
 =============================================================================
